@@ -58,3 +58,9 @@ _c("C01",
    "DH progeny homozygous; count = sum nmating*nprogeny; family labels, names, counters; the Spec oracle (a reachability DP) is proved to decide the mosaic predicate and to accept every model output.",
    "numpy repeat/lexsort/unique as modelled (differentially tested each run); generator contract 0 <= u; marker metadata and parents-untouched are pass-through checked by snapshots. "
    "Partial: order_preserved_partial (generation order needs progeny_counter+count <= 10^7 because group_taxa sorts names lexicographically; counterexample proved).")
+_c("C14",
+   "21 theorems (Props/C14.lean): the transcribed env/rep double loop equals its closed form; exactly one record per (taxon, env, rep) with that taxon's labels, for any layout and draw stream; zero noise returns the true values; "
+   "heritability algebra (var_A/(var_A+var_err) = h2, necessity of var_A > 0, per-trait setter); mean-phenotype breeding values equal each taxon's arithmetic mean over its records, are aligned to any genotype taxa list "
+   "(re-ordering, subsetting, repeats), missing for unphenotyped taxa, invariant under row permutation; noiseless end-to-end pipeline returns truth.",
+   "pandas groupby entered through the contract 'one row per distinct key, per-column mean' (re-checked by the Spec); multivariate_normal draws are oracle inputs (call pattern and covariance arguments compared). "
+   "Partial: realised_error_variance_partial (the almost-sure limit of realised variances needs the generator's law; only tested statistically at fixed seeds with a 7-sigma band); meanBV_eq_mean_partial (one name, one group).")
